@@ -123,6 +123,9 @@ namespace Std
 inductive Des
   | vendor (body : List Nat)                 -- type 0h: vendor specific
   | t10 (vid rest : List Nat)                -- type 1h: T10 VENDOR IDENTIFICATION (8 bytes) + vendor specific identifier
+  | eui8 (cid : Nat) (ext : List Nat)        -- type 2h, 8 bytes: IEEE COMPANY_ID (3 bytes), VENDOR SPECIFIC EXTENSION IDENTIFIER (5 bytes)
+  | eui12 (cid : Nat) (ext dir : List Nat)   -- type 2h, 12 bytes: … then DIRECTORY ID (4 bytes)
+  | eui16 (idext : List Nat) (cid : Nat) (ext : List Nat) -- type 2h, 16 bytes: IDENTIFIER EXTENSION (8 bytes), COMPANY_ID, extension identifier
   | naa (code : Nat) (v : Vals)              -- type 3h: NAA 2h / 3h / 5h / 6h
   | port (v : Vals)                          -- type 4h: relative target port identifier
   | tpg (v : Vals)                           -- type 5h: target port group
@@ -135,12 +138,15 @@ def naaBlock (code : Nat) : Block :=
   else if code = 5 then naaIeeeRegistered else naaIeeeRegisteredExtended
 
 def Des.ty : Des → Nat
-  | .vendor _ => 0 | .t10 _ _ => 1 | .naa _ _ => 3 | .port _ => 4 | .tpg _ => 5 | .lug _ => 6 | .md5 _ => 7 | .name _ => 8
+  | .vendor _ => 0 | .t10 _ _ => 1 | .eui8 _ _ => 2 | .eui12 _ _ _ => 2 | .eui16 _ _ _ => 2 | .naa _ _ => 3 | .port _ => 4 | .tpg _ => 5 | .lug _ => 6 | .md5 _ => 7 | .name _ => 8
 
 /-- the DESIGNATOR field -/
 def Des.bytes : Des → List Nat
   | .vendor b => b
   | .t10 vid rest => vid ++ rest
+  | .eui8 cid ext => toBytes cid 3 ++ ext
+  | .eui12 cid ext dir => toBytes cid 3 ++ ext ++ dir
+  | .eui16 idext cid ext => idext ++ toBytes cid 3 ++ ext
   | .naa code v => (naaBlock code).enc v
   | .port v => relativePortDesignator.enc v
   | .tpg v => targetPortGroupDesignator.enc v
